@@ -2,6 +2,7 @@
    Statements are pinned by coq/statements/C18.json; ./check compares. *)
 From Coq Require Import Bool List NArith ZArith Lia.
 From M Require ErrSpec.
+From M Require Tie.
 From M Require FmtModel.
 Import ListNotations.
 
@@ -43,4 +44,20 @@ Theorem C18_quoted_maximal :
 Proof. exact (@ErrSpec.quoted_maximal). Qed.
 End T_quoted_maximal.
 Definition C18_quoted_maximal := @T_quoted_maximal.C18_quoted_maximal.
+
+Module T_tie_desc_max. Import Tie. Local Open Scope bool_scope. Local Open Scope Z_scope.
+Local Open Scope Z_scope.
+Theorem C18_tie_desc_max :
+  Generated.gen_desc_max = 255.
+Proof. exact (@Tie.tie_desc_max). Qed.
+End T_tie_desc_max.
+Definition C18_tie_desc_max := @T_tie_desc_max.C18_tie_desc_max.
+
+Module T_tie_config. Import Tie. Local Open Scope bool_scope. Local Open Scope Z_scope.
+Local Open Scope Z_scope.
+Theorem C18_tie_config :
+  Generated.gen_config = [1; 1; 0; 1] /\ Generated.gen_desc_parts = 2.
+Proof. exact (@Tie.tie_config). Qed.
+End T_tie_config.
+Definition C18_tie_config := @T_tie_config.C18_tie_config.
 
